@@ -211,9 +211,17 @@ def run_case(ctx, items, backend, mode, bparam):
     try:
         from vf.checks import c12
 
-        rdr = RTCMReader(stream, validate=1, quitonerror=mode, bufsize=bparam.get("bufsize", 4096),
-                         errorhandler=(lambda e: None), labelmsm=(1, 2, True)[len(data) % 3],
-                         encoding=c12.ENC[bparam.get("how")] if bparam.get("chunked") else 0)
+        from vf import posargs
+
+        # some readers get their leading options by POSITION, in the documented order
+        npos = posargs.npos_for(len(data) // 3)
+        ctx.hit(f"reader_positional_args_{npos}")
+        rdr = posargs.make_reader(RTCMReader, stream, npos, validate=1, quitonerror=mode,
+                                  bufsize=bparam.get("bufsize", 4096),
+                                  # one reader in five returns raw frames only: the same frames in the same order
+                                  parsed=(len(data) % 5 != 3),
+                                  errorhandler=(lambda e: None), labelmsm=(1, 2, True)[len(data) % 3],
+                                  encoding=c12.ENC[bparam.get("how")] if bparam.get("chunked") else 0)
         if mode in (0, 1):
             try:
                 rounds = 0
